@@ -35,6 +35,8 @@ FORMS = [
     ("#warning", "careful 'quoted"),
     ("#", ""),
     ("#", '12 "file.f90"'),
+    ("#if", "!defined(A_MACRO)"),  # a '!' in columns 2-5: not a comment
+    ("#if", "! defined(B)"),
 ]
 RENDER = ["plain", "continued", "leading", "after-hash", "continued3"]
 
@@ -289,7 +291,7 @@ def run(task):
             base_struct = struct(o0.tree)
             base_lines = [l.strip() for l in text_of(o0.tree).split("\n") if l.strip()]
             for gi in range(0, len(fl) + 1, 3):
-                for fi, form, lead in [(fi, form, lead) for fi, form in enumerate(FORMS[:8]) for lead in (("", " ", "  ", "    ") if fi < 3 else ("", "   "))]:
+                for fi, form, lead in [(fi, form, lead) for fi, form in enumerate(FORMS[:8] + FORMS[16:]) for lead in (("", " ", "  ", "    ") if fi < 3 else ("", "   "))]:
                     ls, pl = render_directive(form, "plain")
                     ls = [lead + ls[0]] + ls[1:]  # blanks before '#' (cpp allows them)
                     src = "\n".join(fl[:gi] + ls + fl[gi:]) + "\n"
